@@ -24,8 +24,8 @@ func TestMain(m *testing.M) {
 			"every nesting level; sequences are reconstructed by position from common/delete/add/replace edits (cursors must end at both lengths); mapping "+
 			"edits are exactly the added/removed/changed keys with faithful payloads. Rebuild reason: generated projects are built, edited (constants, "+
 			"bodies, helpers, flags, docstrings...) and rebuilt; for every TargetEvaluating that carries an environment diff the differing top-level "+
-			"keys are computed independently from the diff's old and new environments, the reason must read exactly 'k1[, k2..., and kn] changed' in "+
-			"the documented key order, and the attached diff must pass the same reconstruction oracle. Non-trivial = unequal pair containing a "+
+			"keys are computed independently from the diff's old and new environments (histories may rewrite a record in the format of an older dawn, so that a part exists on one side only), the reason must contain the name of every part that differs and of no part that is equal (no order or wording assumed), "+
+			"and the attached diff must pass the same reconstruction oracle. Non-trivial = unequal pair containing a "+
 			"sequence pair with both sides non-empty, or a rebuild with an environment diff. Distinct by case JSON.",
 		"values are acyclic; sizes <= 3000",
 	)
